@@ -6,7 +6,7 @@ cd /verif
 mkdir -p bin evidence replays
 go build -o bin/instrument ./tools/instrument
 W=$(mktemp -d /tmp/vsetup-XXXXXX); trap 'rm -rf "$W"' EXIT
-./bin/instrument -repo /repo -out "$W" -rules r1,r2,r5,r6 -rt /verif/rt >/dev/null
+./bin/instrument -repo /repo -out "$W" -rules r1,r2,r5 -rt /verif/rt >/dev/null
 go build -tags verif -overlay "$W/overlay.json" -o "$W/vcheck" ./harness/cmd/vcheck
 "$W/vcheck" list >/dev/null
 go test -c -vet=off -tags verif -overlay "$W/overlay.json" -o "$W/fuzzwrap.test" ./harness/fuzzwrap
